@@ -67,6 +67,7 @@ def worker_env(hashseed, scratch):
         'PYTHONPYCACHEPREFIX': scratch.pycache,
         'PYTHONHASHSEED': str(hashseed % (1 << 32)),
         'VERIF_REPO': REPO,
+        'VERIF_CANONICAL_HOME': os.environ.get('HOME', '/root'),
         'LANG': 'C.UTF-8',
         'TMPDIR': scratch.root,
         **({'VERIF_HEAP_PROBES': '1'} if os.environ.get('VERIF_HEAP_PROBES') else {}),
@@ -108,6 +109,21 @@ def run_job(job, scratch, timeout=180, hashseed=None):
     env = worker_env(hs, scratch)
     if (job.get('mode') or {}).get('malloc'):
         env['PYTHONMALLOC'] = 'malloc'
+    jenv = (job.get('mode') or {}).get('env')
+    if jenv:
+        for k, v in jenv.items():
+            if k == 'home_decoys':
+                continue
+            env[k] = v if v != 'decoy' else job['scratch'] + '.home/propka.cfg'
+        if jenv.get('home_decoys'):
+            home = job['scratch'] + '.home'
+            os.makedirs(os.path.join(home, '.config', 'propka'), exist_ok=True)
+            for rel in ('.propka.cfg', 'propka.cfg', '.propkarc', '.config/propka/propka.cfg',
+                        'protein_bonds.json'):
+                with open(os.path.join(home, rel), 'w') as fh:
+                    fh.write('version NoSuchVersion\nmodel_pkas ASP 9.99\n')
+            env['HOME'] = home
+            env['XDG_CONFIG_HOME'] = os.path.join(home, '.config')
     t0 = time.time()
     try:
         try:
@@ -127,6 +143,7 @@ def run_job(job, scratch, timeout=180, hashseed=None):
             return {'harness_error': 'unparsable worker output', 'seed': job.get('seed')}
     finally:
         shutil.rmtree(job['scratch'], ignore_errors=True)
+        shutil.rmtree(job['scratch'] + '.home', ignore_errors=True)
         for pth in (jobpath, jobpath + '.out'):
             try:
                 os.unlink(pth)
